@@ -81,7 +81,7 @@ class OneShotBroker:
         pass
 
 
-async def wire_segments(text, esm_class, ref):
+async def wire_segments(text, esm_class, ref, encoding=None, params=()):
     """Run the real sender once on SubmitSm(text, esm_class, auto_message_payload=False); returns
     ('ok', [pdu...]) or ('err', exception)."""
     from aiosmpplib.protocol import SubmitSm
@@ -97,8 +97,10 @@ async def wire_segments(text, esm_class, ref):
 
         async def dequeue(self):
             return self.m
+    from aiosmpplib.state import OptionalParam
     msg = SubmitSm(short_message=text, source=PhoneNumber('1000'), destination=PhoneNumber('2000'),
-                   esm_class=esm_class, auto_message_payload=False, log_id='L', service_type='ab')
+                   esm_class=esm_class, auto_message_payload=False, log_id='L', service_type='ab', encoding=encoding,
+                   optional_params=[OptionalParam(t, v) for t, v in params])
     loop = asyncio.get_running_loop()
     esme, hook = sess.make_esme(broker=B(msg), testing=True)
     _r, writer, tr, _p = sess.make_stream(loop)
@@ -113,7 +115,7 @@ async def wire_segments(text, esm_class, ref):
     return 'ok', tr.written, hook
 
 
-def oracle_wire(text, esm_class, ref, pdus):
+def oracle_wire(text, esm_class, ref, pdus, params=()):
     """Independent receiver: every PDU fits, boundaries are clean, numbering is right, text comes back."""
     fs = [smppref.decode_sm(p) for p in pdus]
     if not fs:
@@ -125,6 +127,15 @@ def oracle_wire(text, esm_class, ref, pdus):
             return f'short_message of {len(f["short_message"])} octets'
         if (f['src'], f['dst'], f['service_type'], f['registered_delivery']) != (b'1000', b'2000', b'ab', 1):
             return 'a segment lost the addressing/options of the original'
+    for f in fs:
+        # the message's own optional parameters travel with every segment, once each; no concatenation parameter twice
+        for tag, val in params:
+            got = [v for t, v in f['tlvs'] if t == int(tag)]
+            if len(got) != 1 or int.from_bytes(got[0], 'big') != val:
+                return f'a PDU carries optional parameter {int(tag):#x} {len(got)} time(s) (value {[g.hex() for g in got]}), the message has it once with value {val}'
+        for tag in (0x020C, 0x020E, 0x020F):
+            if sum(1 for t, _v in f['tlvs'] if t == tag) > 1:
+                return f'a PDU carries concatenation parameter {tag:#x} {sum(1 for t, _v in f["tlvs"] if t == tag)} times'
     if len(fs) == 1:
         f = fs[0]
         if f['esm_class'] & 0x40 or smppref.concat_info(f) is not None:
@@ -227,6 +238,34 @@ def run(ctx):
             if len(ctx.samples) < 2 and kind == 'ok' and len(val) > 1:
                 ctx.sample({'text_len': len(t), 'text_head': t[:12], 'esm_class': esm, 'ref': ref,
                             'segment_lengths': [len(smppref.decode_sm(p)['short_message']) for p in val]})
+    # ---- the same through the sender with the options the segments must carry along: optional parameters of the message, and an
+    #      alphabet named explicitly (the two alphabets of the property) - whatever the library decides to send, the announced
+    #      data_coding must be the one the octets are in (oracle only; the model covers the automatic case)
+    from aiosmpplib import state as st
+    var_texts = [t for i, t in enumerate(texts) if len(t) > 60 and i % (5 if ctx.thorough else 23) == 0]
+    for vi, t in enumerate(var_texts):
+        esm = (0, 0x40, 0x43, 0)[vi % 4]
+        ref = rng.choice([0, 9, 255])
+        params = [(), ((st.USER_MESSAGE_REFERENCE, 513),), ((st.USER_MESSAGE_REFERENCE, 7), (st.SOURCE_PORT, 65000))][vi % 3]
+        encoding = [None, 'ucs2', 'gsm0338', None][(vi // 2) % 4]
+        kind, val, hook = asyncio.run(wire_segments(t, esm, ref, encoding, params))
+        ctx.traces += 1
+        ctx.case(('wire_variant', t, esm, ref, encoding, len(params)), nontrivial=kind == 'ok' and len(val) > 1)
+        ctx.count('wire_variant_' + ('sar' if not esm & 0x40 else 'udh') + ('_explicit_' + encoding if encoding else '_auto') + f'_{len(params)}_params'
+                  + ('' if kind == 'ok' else '_error'))
+        refused = [e for e in hook.log if e[0] == 'send_error' and isinstance(e[2], (ValueError, LookupError))]
+        if kind == 'ok' and not val and refused and encoding is not None:
+            # a text the named alphabet cannot carry (or cannot carry in one PDU) is refused through send_error: nothing wrong is sent
+            ctx.count('wire_variant_refused_under_explicit_encoding')
+        elif kind == 'ok':
+            msg = oracle_wire(t, esm, ref, val, params)
+            if msg:
+                ctx.violation(f'{msg} (text of {len(t)} characters, esm_class {esm:#x}, ref {ref}, encoding {encoding!r}, {len(params)} optional parameter(s))',
+                              {'function': 'wire', 'text': [ord(c) for c in t], 'esm_class': esm, 'ref': ref, 'encoding': encoding,
+                               'params': [[int(a), b] for a, b in params]})
+        elif encoding is None or not isinstance(val, (ValueError, LookupError)):
+            ctx.violation(f'the sender raised {val!r} for a text of {len(t)} characters, esm_class {esm:#x}, encoding {encoding!r}',
+                          {'function': 'wire', 'text': [ord(c) for c in t], 'esm_class': esm, 'ref': ref, 'encoding': encoding, 'params': [[int(a), b] for a, b in params]})
     if proved or not getattr(ctx, 'build_failing', None):
         for name, fn, cases in (
             ('split_sms', 'fun p : list Z * option Z => ser_parts (split_sms (fst p) (snd p))', sp_cases),
@@ -254,8 +293,9 @@ def replay(ctx, path):
         print('replay: nothing to replay')
         return 0
     t = ''.join(map(chr, r['text']))
-    kind, val, _h = asyncio.run(wire_segments(t, r['esm_class'], r['ref']))
-    msg = oracle_wire(t, r['esm_class'], r['ref'], val) if kind == 'ok' else None
+    params = tuple((a, b) for a, b in r.get('params', []))
+    kind, val, _h = asyncio.run(wire_segments(t, r['esm_class'], r['ref'], r.get('encoding'), params))
+    msg = oracle_wire(t, r['esm_class'], r['ref'], val, params) if kind == 'ok' else f'the sender raised {val!r}'
     print('replay:', msg or 'property holds on this input')
     if msg:
         print(f'VIOLATION property=C08 replay={path}')
